@@ -128,6 +128,23 @@ pub const FOCUS_COORD_MIN2: Granularity = Granularity::Focus(
     ],
 );
 
+/// Coordinator hand-shake points under the *sticky* cost model (explorer.rs `suspended`): one
+/// deviation suspends the thread it passes over until the others block or spin, so "the commit
+/// thread stays away while worker and finality pass several voluntary yields" costs one deviation
+/// instead of one per yield (seeded change C17d).
+pub const STICKY_COORD: Granularity = Granularity::Focus(
+    "sticky-coord",
+    &[
+        grevm_verif_rt::pt::FINALITY_READ,
+        grevm_verif_rt::pt::FINALITY_PUBLISH,
+        grevm_verif_rt::pt::FINALITY_NOTIFY,
+        grevm_verif_rt::pt::COMMIT_TAKE,
+        grevm_verif_rt::pt::COMMIT_PUBLISH,
+        grevm_verif_rt::pt::VALIDATE_VERDICT,
+        grevm_verif_rt::pt::VALIDATE_NOTIFY,
+    ],
+);
+
 pub fn jobs(prop: &str, tier: Tier) -> Vec<Job> {
     match prop {
         "C01" => c01::jobs(tier),
